@@ -65,6 +65,10 @@ class C12(Check):
         n = 160 if tier == "quick" else 2400
         for i in range(n):
             yield {"i": i, "seed": seed}
+        # deterministic NaN / NULL focus on floating columns: every operator x literal x API variant
+        for t in ("double", "float"):
+            for layout in range(4):
+                yield {"nanfocus": t, "layout": layout, "seed": seed}
         # dedicated malformed-filter cases on empty and non-empty tables
         for j, (name, _f) in enumerate(gen.MALFORMED_FILTERS):
             yield {"malformed": name, "seed": seed}
@@ -75,6 +79,8 @@ class C12(Check):
 
         if "malformed" in case:
             return self._malformed(case, res)
+        if "nanfocus" in case:
+            return self._nanfocus(case, res)
         rng = rng_for(case["seed"], "c12", case["i"])
         fields = gen.gen_schema(rng)
         layout = gen.gen_layout(rng, fields, nan_p=rng.choice([0.0, 0.15, 0.4]),
@@ -122,6 +128,49 @@ class C12(Check):
                 else:
                     cols = ["rid"]
                 self._one_filter(t, truth, flt, terms, cols, klass, proj_kind, fields, res, case)
+
+    def _nanfocus(self, case: Any, res: CaseResult) -> None:
+        import datashard as ds
+
+        nan = float("nan")
+        t_name = case["nanfocus"]
+        fields = [{"id": 1, "name": "rid", "type": "long", "required": True},
+                  {"id": 2, "name": "x", "type": t_name, "required": False}]
+        layouts = [
+            [[1.0, nan, None]],
+            [[1.0, nan], [nan], [2.0, 1.0], [None]],
+            [[1.0, 1.0, nan], [2.0]],
+            [[nan, nan], [1.0], [None, 2.0, nan]],
+        ]
+        files = layouts[case["layout"]]
+        with Scratch("c12n") as d:
+            root = str(d / "t")
+            t = ds.create_table(root, schema=tables.schema_of(fields))
+            rid = 0
+            for vals in files:
+                recs = []
+                for v in vals:
+                    recs.append({"rid": rid, "x": v})
+                    rid += 1
+                t.append_records(recs)
+            tv = reader.read_table(reader.Blobs.local(root))
+            truth: List[Dict[str, Any]] = []
+            for fp in tv.current().files:
+                truth.extend(reader.read_rows(reader.Blobs.local(root), fp))
+            lits = [1.0, 2.0, 0.0]
+            conds: List[Tuple[str, Any]] = []
+            for op in gen.CMP_OPS:
+                for l in lits:
+                    conds.append((op, (op, l)))
+            for vs in ([1.0], [1.0, 2.0], [0.0], [], [1.0, None]):
+                conds.append(("in", ("in", vs)))
+                conds.append(("not_in", ("not_in", vs)))
+            conds.append(("between", ("between", (1.0, 2.0))))
+            conds.append(("is_null", ("is_null", True)))
+            conds.append(("is_not_null", ("is_not_null", True)))
+            for op, cond in conds:
+                self._one_filter(t, truth, {"x": cond}, [("x", op, cond)], None, "plain", "none", fields, res, case)
+            res.count("tables")
 
     def _expected(self, truth: List[Dict[str, Any]], terms: Any, cols: Any) -> Optional[List[Dict[str, Any]]]:
         out = []
